@@ -4,9 +4,11 @@
 // retransmission storms" (DESIGN.md §5 C17).
 //
 // obs.go  — the observation layer: a timestamped FSM-trace recorder (pion log lines through
-//           WithLoggerFactory, stamped with the bubble's fake clock) and a scenario driver written directly
-//           on top of the world primitives (Head/Take/Push/Sleep/WaitActivity), which attributes every
-//           emitted datagram either to exactly one delivery (a *reaction*) or to a timer.
+//
+//	WithLoggerFactory, stamped with the bubble's fake clock) and a scenario driver written directly
+//	on top of the world primitives (Head/Take/Push/Sleep/WaitActivity), which attributes every
+//	emitted datagram either to exactly one delivery (a *reaction*) or to a timer.
+//
 // oracle.go — the retransmission law, evaluated per endpoint on the recorded step sequence.
 // c17_test.go — the enumeration.
 package c17
@@ -184,9 +186,9 @@ type step struct {
 	InHas uint8   // content flags of the delivered datagram (hasClientHello)
 	// InFromCompleted: the delivered datagram was emitted by the peer after the peer's FSM had reached FINISHED
 	InFromCompleted bool
-	Emit  []*world.Datagram
-	Trace []traceEv
-	Note  string
+	Emit            []*world.Datagram
+	Trace           []traceEv
+	Note            string
 }
 
 const hasClientHello = 1
@@ -234,7 +236,7 @@ type driver struct {
 	// byCompleted[id]: datagram id was emitted by an endpoint that had completed.
 	completed   [2]bool
 	byCompleted map[int]bool
-	err       string // harness-level inconsistency (not a property violation)
+	err         string // harness-level inconsistency (not a property violation)
 }
 
 // newDriver builds the pair for variant v with the given retransmission configuration. Both endpoints get
